@@ -255,6 +255,7 @@ class Server(object):
         self.faults = {}            # message id -> {"dup": bool, "corrupt": bool}
         self.done_faults = set()
         self.tx_count = {}
+        self.keyless_answers = {}   # (requester phone, jid) -> why the directory had no keys for jid
         self.msg_routes = []        # log: (msgid, sender, recipient, kind)
         self.acked_by_client = []
         self.sid = 0
@@ -381,6 +382,10 @@ class Server(object):
             jid = u[1]["jid"]
             acc = self.accounts.get(jid)
             if jid in self.key_errors or acc is None or acc.identity is None:
+                # no keys in the directory for this account (never uploaded, or forced by a test): the answer omits it
+                why = "forced" if jid in self.key_errors else "never-uploaded"
+                self.keyless_answers.setdefault((client.phone, jid), why)
+                self.world.log.append(("keys-none", client.phone, jid, why, self.world.steps))
                 continue
             kids = [tup("registration", data=acc.registration), tup("type", data=acc.djb_type), tup("identity", data=acc.identity),
                     tup("skey", {}, [tup("id", data=acc.skey[0]), tup("value", data=acc.skey[1]), tup("signature", data=acc.skey[2])])]
